@@ -12,7 +12,7 @@
    BEGIN at quiescence".  For non-convex group scenarios progress is false under lazy stepping (known finding F21). *)
 From Coq Require Import ZArith List Bool Arith.
 Import ListNotations.
-From MV Require Import Time.Spec Sched.Timing Sched.Inv Sched.Init Sched.Wle Sched.Main Sched.Guards Sched.Final Sched.Live Sched.Progress Sched.Quiet Sched.NoLost Sched.Bound Static.Groups Static.Connect Static.Build Sched.Plane Sched.Link Sched.Certify Sched.GenView Gen.SchedulerFns Sched.SchedTie.
+From MV Require Import Time.Spec Sched.Timing Sched.Inv Sched.Init Sched.Wle Sched.Main Sched.Guards Sched.Final Sched.Live Sched.Progress Sched.Quiet Sched.NoLost Sched.Bound Static.Groups Static.Connect Static.Build Sched.Plane Sched.Link Sched.Certify Sched.GenView Gen.SchedulerFns Sched.SchedTie Sched.SetupTie.
 Open Scope Z_scope.
 
 Theorem C05_partial_never_progresses_backwards : forall st, static_ok st -> forall s e i,
@@ -120,3 +120,17 @@ Theorem C05_generated_advance_progress_is_the_model : forall st s i, (1 <= depth
   advance_progress (view st s i) (nexts (s i)) (cur (s i)) None (until st) (mkI 1 1 (repeat 0 (depth st i))) = new_progress st s i.
 Proof. exact tie_advance_progress. Qed.
 Print Assumptions C05_generated_advance_progress_is_the_model.
+
+(* ... and one round of the loop of next_step_settled, regenerated likewise, is the model's loop_eval: done when the progress
+   has reached until, settled when the head of the queue equals the progress, otherwise asleep until the progress reaches
+   the head of the queue - never beyond the end of the run (what the repair of F22 added) - or a newer step arrives *)
+Theorem C05_generated_next_step_settled_is_the_model : forall st s i, (1 <= depth st i)%nat ->
+  loop_eval st s i =
+  let x := s i in
+  match next_step_settled_round (prog x) (nexts x) (until st) (mkI 1 1 (repeat 0 (depth st i))) with
+  | SettleDone => upd s i (mkSim Done (prog x) (nexts x) (cur x) (last x) (newer x))
+  | Settled m => upd s i (mkSim (WaitDeps m) (prog x) (nexts x) (cur x) (last x) (newer x))
+  | SettleWait aw => upd s i (mkSim (Sleep aw) (prog x) (nexts x) (cur x) (last x) false)
+  end.
+Proof. exact tie_next_step_settled. Qed.
+Print Assumptions C05_generated_next_step_settled_is_the_model.
